@@ -144,8 +144,29 @@ enum Api {
 
 #[derive(Serialize, Deserialize, Clone, Debug)]
 enum Sc {
-    One { api: Api, shape: Shape, weights: Vec<u32>, rng: RngSpec },
-    Dist { api: Api, shape: Shape, weights: Vec<u32>, trials: u64, seed: u64, cells_total: u64 },
+    One {
+        api: Api,
+        shape: Shape,
+        weights: Vec<u32>,
+        rng: RngSpec,
+        /// members with index >= pop_len fail (the population is too short for them); None = nobody fails
+        #[serde(default)]
+        pop_len: Option<usize>,
+        /// DynWeighted only: after this many members were added the list is USED (a few selections), then
+        /// the remaining members are added — "no matter in which order it was built"
+        #[serde(default)]
+        warm_after: Option<usize>,
+    },
+    Dist {
+        api: Api,
+        shape: Shape,
+        weights: Vec<u32>,
+        trials: u64,
+        seed: u64,
+        cells_total: u64,
+        #[serde(default)]
+        warm_after: Option<usize>,
+    },
 }
 
 enum Built {
@@ -155,7 +176,7 @@ enum Built {
     BuildError(u32, u32),
 }
 
-fn build_any(api: Api, shape: &Shape, weights: &[u32], hits: &Arc<Vec<AtomicU64>>) -> Built {
+fn build_any(api: Api, shape: &Shape, weights: &[u32], hits: &Arc<Vec<AtomicU64>>, warm_after: Option<usize>) -> Built {
     let nth = |i: usize| Nth { i, hits: hits.clone() };
     match api {
         Api::Tree => match build(shape, weights, hits) {
@@ -167,8 +188,23 @@ fn build_any(api: Api, shape: &Shape, weights: &[u32], hits: &Arc<Vec<AtomicU64>
             // a usize weight must not be narrowed on the way in
             let scale: usize = if weights.len() % 2 == 1 && weights.iter().all(|w| *w < 1 << 20) { 1 << 32 } else { 1 };
             let mut d: DynWeighted<Pop> = DynWeighted::new(nth(0), weights[0] as usize * scale);
+            let warm = |d: &DynWeighted<Pop>, added: usize| {
+                if warm_after == Some(added) {
+                    // use the partially built list, then forget what the markers counted
+                    let pop: Pop = (0..weights.len() as u32).map(|i| 100 + i).collect();
+                    let mut r = FastRng::new(0x5eed ^ added as u64);
+                    for _ in 0..3 {
+                        let _ = d.select(&pop, &mut r);
+                    }
+                    for h in hits.iter() {
+                        h.store(0, Ordering::Relaxed);
+                    }
+                }
+            };
+            warm(&d, 1);
             for (i, w) in weights.iter().enumerate().skip(1) {
                 d = d.with_selector(nth(i), *w as usize * scale);
+                warm(&d, i + 1);
             }
             Built::Dyn(d)
         }
@@ -232,14 +268,28 @@ fn left_chain(n: usize) -> Shape {
     s
 }
 
-fn exec_one(api: Api, shape: &Shape, weights: &[u32], spec: &RngSpec, obs: &mut Obs) -> Vec<Violation> {
+#[allow(clippy::too_many_lines)]
+fn exec_one(
+    api: Api,
+    shape: &Shape,
+    weights: &[u32],
+    spec: &RngSpec,
+    pop_len: Option<usize>,
+    warm_after: Option<usize>,
+    obs: &mut Obs,
+) -> Vec<Violation> {
     let n = weights.len();
     let hits: Arc<Vec<AtomicU64>> = Arc::new((0..n).map(|_| AtomicU64::new(0)).collect());
-    let pop: Pop = (0..n as u32).map(|i| 100 + i).collect();
+    let live = pop_len.unwrap_or(n).min(n);
+    let pop: Pop = (0..live as u32).map(|i| 100 + i).collect();
     let site = format!("{api:?}");
-    let cfg = format!("{api:?} {shape:?} weights {weights:?}");
+    let cfg = format!(
+        "{api:?} {shape:?} weights {weights:?}{}{}",
+        if live < n { format!(" (members #{live}.. fail)") } else { String::new() },
+        warm_after.map_or(String::new(), |k| format!(" (list used after {k} member(s) were added, then extended)"))
+    );
     let mut v = Vec::new();
-    let built = match catch(|| build_any(api, shape, weights, &hits)) {
+    let built = match catch(|| build_any(api, shape, weights, &hits, warm_after)) {
         Ok(b) => b,
         Err(p) => {
             v.push(Violation::new("never-panics", format!("panic-build:{site}"), format!("{cfg}: building panicked: {}", p.message)));
@@ -293,11 +343,19 @@ fn exec_one(api: Api, shape: &Shape, weights: &[u32], spec: &RngSpec, obs: &mut 
     let n_invoked: u64 = invoked.iter().sum();
     match r {
         Err(p) => v.push(Violation::new("never-panics", format!("panic:{site}"), format!("{cfg}: selection panicked: {}", p.message))),
-        Ok(Err(e)) => v.push(Violation::new(
-            "delegates-to-exactly-one-member",
-            format!("unexpected-error:{site}"),
-            format!("{cfg}: selection failed with `{e}`"),
-        )),
+        Ok(Err(e)) => {
+            // a member's own failure is passed on — by exactly the one member that was chosen
+            let failing_chosen = n_invoked == 1 && invoked.iter().position(|h| *h > 0).is_some_and(|i| i >= live && weights[i] > 0);
+            if failing_chosen {
+                obs.hit("fault.component-fail");
+            } else {
+                v.push(Violation::new(
+                    "delegates-to-exactly-one-member",
+                    format!("unexpected-error:{site}"),
+                    format!("{cfg}: selection failed with `{e}`; members invoked {invoked:?}"),
+                ));
+            }
+        }
         Ok(Ok(None)) => {
             obs.hit("fault.zero-total-weight");
             if total != 0 {
@@ -338,7 +396,13 @@ fn exec_one(api: Api, shape: &Shape, weights: &[u32], spec: &RngSpec, obs: &mut 
                         format!("{cfg}: member #{i} has weight 0 but was used"),
                     ));
                 }
-                if x != 100 + i as u32 && n_invoked == 1 {
+                if i >= live && n_invoked == 1 {
+                    v.push(Violation::new(
+                        "delegates-to-exactly-one-member",
+                        format!("failure-swallowed:{site}"),
+                        format!("{cfg}: member #{i} was chosen and failed, but the selection returned {x}"),
+                    ));
+                } else if x != 100 + i as u32 && n_invoked == 1 {
                     v.push(Violation::new(
                         "delegates-to-exactly-one-member",
                         format!("result-not-from-delegate:{site}"),
@@ -359,11 +423,21 @@ fn exec_one(api: Api, shape: &Shape, weights: &[u32], spec: &RngSpec, obs: &mut 
     v
 }
 
-fn exec_dist(api: Api, shape: &Shape, weights: &[u32], trials: u64, seed: u64, cells_total: u64, obs: &mut Obs) -> Vec<Violation> {
+#[allow(clippy::too_many_arguments)]
+fn exec_dist(
+    api: Api,
+    shape: &Shape,
+    weights: &[u32],
+    trials: u64,
+    seed: u64,
+    cells_total: u64,
+    warm_after: Option<usize>,
+    obs: &mut Obs,
+) -> Vec<Violation> {
     let n = weights.len();
     let hits: Arc<Vec<AtomicU64>> = Arc::new((0..n).map(|_| AtomicU64::new(0)).collect());
     let pop: Pop = (0..n as u32).map(|i| 100 + i).collect();
-    let Ok(built) = catch(|| build_any(api, shape, weights, &hits)) else { return Vec::new() };
+    let Ok(built) = catch(|| build_any(api, shape, weights, &hits, warm_after)) else { return Vec::new() };
     if matches!(built, Built::BuildError(..)) {
         return Vec::new();
     }
@@ -396,7 +470,7 @@ fn exec_dist(api: Api, shape: &Shape, weights: &[u32], trials: u64, seed: u64, c
                 clause,
                 key,
                 format!(
-                    "{api:?} {shape:?} weights {weights:?}: member #{i} was used in {x} of {trials} seeded selections; w_i/sum = {p:.5} \
+                    "{api:?} {shape:?} weights {weights:?} (warm-up after {warm_after:?}): member #{i} was used in {x} of {trials} seeded selections; w_i/sum = {p:.5} \
                      (n*KL = {:.1}, threshold {:.1})",
                     verdict.stat, verdict.threshold
                 ),
@@ -492,7 +566,10 @@ impl Check for C13 {
          (c) DynWeighted lists (1-6). (1) distribution experiments: N seeded selections per configuration, every member's use frequency vs \
          w_i/sum (KL rule, total false-alarm budget 1e-9; weight-0 members exact); (2) seeded single selections under seeded and boundary \
          streams: exactly one member invoked, never a weight-0 member, all-zero => zero-weight error without invoking anyone, totals beyond \
-         32 bits rejected at build time with the right fields (also when the overflow happened earlier), totals of exactly u32::MAX accepted. \
+         32 bits rejected at build time with the right fields (also when the overflow happened earlier), totals of exactly u32::MAX accepted; \
+         in a third of the runs some members FAIL (component-fail fault): the failure must come from exactly the one member chosen and be \
+         passed on (no fallback to another member); DynWeighted lists are also used after k members and then extended (build order / \
+         interleaving of building and use must not matter), in single selections and in half of the Dyn experiments. \
          Non-trivial: experiments always; single selections with >= 2 members; distinct = (configuration, delegate) fingerprints"
             .into()
     }
@@ -512,6 +589,7 @@ impl Check for C13 {
         let exps = if tier == Tier::Quick { EXPERIMENTS_QUICK } else { EXPERIMENTS_THOROUGH };
         if run < exps {
             let (api, shape, weights) = gen_case(g, true);
+            let warm_after = if api == Api::Dyn && weights.len() >= 2 && run % 2 == 1 { Some(g.urange(1, weights.len() - 1)) } else { None };
             return Sc::Dist {
                 api,
                 shape,
@@ -519,33 +597,44 @@ impl Check for C13 {
                 trials: if tier == Tier::Quick { 100_000 } else { 400_000 },
                 seed: g.next_u64(),
                 cells_total: exps * 6,
+                warm_after,
             };
         }
         let (api, shape, weights) = gen_case(g, false);
-        Sc::One { api, shape, weights, rng: RngSpec::swarm(g) }
+        let n = weights.len();
+        let pop_len = if g.chance(1, 3) { Some(g.urange(0, n)) } else { None };
+        let warm_after = if api == Api::Dyn && n >= 2 && g.chance(1, 3) { Some(g.urange(1, n - 1)) } else { None };
+        Sc::One { api, shape, weights, rng: RngSpec::swarm(g), pop_len, warm_after }
     }
 
     fn execute(&self, sc: &Sc, obs: &mut Obs) -> Vec<Violation> {
         match sc {
-            Sc::One { api, shape, weights, rng } => exec_one(*api, shape, weights, rng, obs),
-            Sc::Dist { api, shape, weights, trials, seed, cells_total } => {
-                exec_dist(*api, shape, weights, *trials, *seed, *cells_total, obs)
+            Sc::One { api, shape, weights, rng, pop_len, warm_after } => exec_one(*api, shape, weights, rng, *pop_len, *warm_after, obs),
+            Sc::Dist { api, shape, weights, trials, seed, cells_total, warm_after } => {
+                exec_dist(*api, shape, weights, *trials, *seed, *cells_total, *warm_after, obs)
             }
         }
     }
 
     fn shrink(&self, sc: &Sc) -> Vec<Sc> {
         let mut out = Vec::new();
-        if let Sc::One { api, shape, weights, rng } = sc {
+        if let Sc::One { api, shape, weights, rng, pop_len, warm_after } = sc {
+            let (pop_len, warm_after) = (*pop_len, *warm_after);
             if rng.q16 != 0 {
-                out.push(Sc::One { api: *api, shape: shape.clone(), weights: weights.clone(), rng: RngSpec::seeded(rng.seed) });
+                out.push(Sc::One { api: *api, shape: shape.clone(), weights: weights.clone(), rng: RngSpec::seeded(rng.seed), pop_len, warm_after });
+            }
+            if pop_len.is_some() {
+                out.push(Sc::One { api: *api, shape: shape.clone(), weights: weights.clone(), rng: rng.clone(), pop_len: None, warm_after });
+            }
+            if warm_after.is_some() {
+                out.push(Sc::One { api: *api, shape: shape.clone(), weights: weights.clone(), rng: rng.clone(), pop_len, warm_after: None });
             }
             for (i, w) in weights.iter().enumerate() {
                 for r in [0u32, 1] {
                     if *w != r {
                         let mut ws = weights.clone();
                         ws[i] = r;
-                        out.push(Sc::One { api: *api, shape: shape.clone(), weights: ws, rng: rng.clone() });
+                        out.push(Sc::One { api: *api, shape: shape.clone(), weights: ws, rng: rng.clone(), pop_len, warm_after });
                     }
                 }
             }
